@@ -77,6 +77,9 @@ OpsB1 == {"get", "prod", "sq", "recip", "mul"}
 OpsB2 == {"get", "setsc", "seta", "mul", "prod", "rev"}
 OpsB3 == {"get", "setsc", "sq", "sum", "sub"}
 OpsDrvD == {"get", "setsc", "prod", "recip", "drv"}
+\* a bare reverse sweep directly after a single-direction driver (no pushforward in between)
+OpsDrvPb == {"set", "mul", "get", "drv", "pbdrv"}
+OpsDrvPb2 == {"get", "mul", "sum", "rev", "drv", "pbdrv"}
 OpsToggle == {"get", "mul", "add", "toggle", "const"}
 
 Spec == Init /\ [][Next]_vars
